@@ -3,55 +3,61 @@
 (* Several qmail-remote processes share the time-out table.  Each process  *)
 (* looks an address up, and - if it is not to be skipped - tries to        *)
 (* connect (the environment chooses the outcome) and reports; the clock    *)
-(* advances by steps chosen from Steps.  Atomic = TRUE: tcpto_err() holds  *)
+(* advances at most MaxTicks times by steps chosen from Steps; of the      *)
+(* time-outs reported for an address only the first and the last are kept  *)
+(* (they are the best witnesses for SkipSound).  Atomic = TRUE: tcpto_err() holds  *)
 (* the lock from reading the table to writing the slot (as the code does); *)
 (* Atomic = FALSE splits it into a read and a write step: UniqueAddress    *)
 (* must then fail (sanity of the model).                                   *)
 (***************************************************************************)
 EXTENDS Tcpto, TLC
-CONSTANTS NProc, Ips, NSlots, Steps, MaxNow, Atomic
-VARIABLES tab, now, pc, arg, was, snap, touts, lastskip
-vars == <<tab, now, pc, arg, was, snap, touts, lastskip>>
+CONSTANTS NProc, Ips, NSlots, Steps, MaxTicks, Atomic
+VARIABLES tab, now, nt, pc, arg, was, snap, touts, verdict, skipped
+vars == <<tab, now, nt, pc, arg, was, snap, touts, verdict, skipped>>
 Procs == 1..NProc
 Blank == [ip |-> 0, f |-> 0, w |-> 0]
 
-Init == /\ tab = [i \in 1..NSlots |-> Blank] /\ now = 1000 /\ pc = [p \in Procs |-> "idle"] /\ arg = [p \in Procs |-> 0]
-        /\ was = [p \in Procs |-> 0] /\ snap = [p \in Procs |-> <<>>] /\ touts = [i \in Ips |-> {}] /\ lastskip = <<>>
+Init == /\ tab = [i \in 1..NSlots |-> Blank] /\ now = 1000 /\ nt = 0 /\ pc = [p \in Procs |-> "idle"] /\ arg = [p \in Procs |-> 0]
+        /\ was = [p \in Procs |-> 0] /\ snap = [p \in Procs |-> <<>>] /\ touts = [i \in Ips |-> <<0, 0>>] /\ verdict = "" /\ skipped = FALSE
 
-Tick == \E d \in Steps : now + d <= MaxNow /\ now' = now + d /\ UNCHANGED <<tab, pc, arg, was, snap, touts, lastskip>>
+Tick == nt < MaxTicks /\ nt' = nt + 1 /\ \E d \in Steps : now' = now + d /\ UNCHANGED <<tab, pc, arg, was, snap, touts, verdict, skipped>>
 
 Lookup(p) == /\ pc[p] = "idle" /\ \E ip \in Ips :
-                LET l == LookupP(tab, ip, now, (p - 1) * 31) IN          \* process 1 has the shortest window, process 2 the longest
-                /\ arg' = [arg EXCEPT ![p] = ip] /\ was' = [was EXCEPT ![p] = l.was]
-                /\ pc' = [pc EXCEPT ![p] = IF l.skip = 1 THEN "idle" ELSE "connecting"]
-                /\ lastskip' = (IF l.skip = 1 THEN <<ip, now, p>> ELSE lastskip)
-             /\ UNCHANGED <<tab, now, snap, touts>>
+                LET pb == (p - 1) * 31                                   \* process 1 has the shortest window, process 2 the longest
+                    l == LookupP(tab, ip, now, pb)
+                    t1 == touts[ip][1]  t2 == touts[ip][2]              \* first and last reported time-out (0 = none): the best witnesses
+                    v == IF l.skip = 0 THEN ""
+                         ELSE IF ~(t1 # 0 /\ t2 >= t1 + GRACE /\ t2 <= now) THEN "SkippedWithoutTwoTimeoutsTwoMinutesApart"
+                         ELSE IF ~(now - t2 < Window(pb)) THEN "SkippedAfterTheWindow"
+                         ELSE ""
+                IN /\ arg' = [arg EXCEPT ![p] = ip] /\ was' = [was EXCEPT ![p] = l.was]
+                   /\ pc' = [pc EXCEPT ![p] = IF l.skip = 1 THEN "idle" ELSE "connecting"]
+                   /\ verdict' = (IF verdict # "" THEN verdict ELSE v)
+                   /\ skipped' = (skipped \/ l.skip = 1)
+             /\ UNCHANGED <<tab, now, nt, snap, touts>>
 
 Report(p) == /\ pc[p] = "connecting" /\ \E flagerr \in {0, 1} :
-                /\ touts' = (IF flagerr = 1 THEN [touts EXCEPT ![arg[p]] = @ \cup {now}] ELSE touts)
+                /\ touts' = (IF flagerr = 1 THEN [touts EXCEPT ![arg[p]] = <<(IF @[1] = 0 THEN now ELSE @[1]), now>>] ELSE touts)
                 /\ IF Atomic THEN /\ tab' = ErrP(tab, was[p], arg[p], flagerr, now) /\ pc' = [pc EXCEPT ![p] = "idle"] /\ UNCHANGED snap
                    ELSE /\ snap' = [snap EXCEPT ![p] = <<tab, flagerr, now>>] /\ pc' = [pc EXCEPT ![p] = "writing"] /\ UNCHANGED tab
-             /\ UNCHANGED <<now, arg, was, lastskip>>
+             /\ UNCHANGED <<now, nt, arg, was, verdict, skipped>>
 \* (non-atomic variant) the slot computed from the stale copy is written over the current table
 WriteBack(p) == /\ pc[p] = "writing"
                 /\ LET old == snap[p][1]  new == ErrP(old, was[p], arg[p], snap[p][2], snap[p][3])
                        ch == {i \in 1..NSlots : new[i] # old[i]}
                    IN tab' = [i \in 1..NSlots |-> IF i \in ch THEN new[i] ELSE tab[i]]
-                /\ pc' = [pc EXCEPT ![p] = "idle"] /\ UNCHANGED <<now, arg, was, snap, touts, lastskip>>
+                /\ pc' = [pc EXCEPT ![p] = "idle"] /\ UNCHANGED <<now, nt, arg, was, snap, touts, verdict, skipped>>
 
 Next == Tick \/ \E p \in Procs : Lookup(p) \/ Report(p) \/ WriteBack(p)
 Spec == Init /\ [][Next]_vars
 
 \* ---- what an operator relies on
-\* an address is skipped only if it timed out at least twice, two minutes apart or more, the last time within the longest window
-SkipSound == lastskip = <<>> \/
-             LET ip == lastskip[1]  t == lastskip[2]
-             IN \E t1, t2 \in touts[ip] : t2 >= t1 + GRACE /\ t2 <= t /\ t - t2 < Window(31)
+\* an address is skipped only if it timed out at least twice, two minutes apart or more, and only within the window of the
+\* last time-out (judged at the moment of the skip, Lookup)
+SkipSound == verdict = ""
 \* every address has at most one slot (else a success would clear one slot and the other would go on blocking the host)
 UniqueAddress == \A i, j \in 1..NSlots : (i # j /\ tab[i].ip # 0) => tab[i].ip # tab[j].ip
 FlagRange == \A i \in 1..NSlots : tab[i].f \in 0..MAXF /\ (tab[i].f > 0 => tab[i].ip \in Ips)
-\* an address whose last time-out is older than the longest window is not skipped by anybody (stated on the step)
-NoStaleSkip == [][lastskip' # lastskip => \E t2 \in touts[lastskip'[1]] : t2 <= now /\ now - t2 < Window((lastskip'[3] - 1) * 31)]_vars
 \* sanity: skipping does happen in this model (must be VIOLATED)
-NeverSkips == lastskip = <<>>
+NeverSkips == ~skipped
 =============================================================================
